@@ -37,6 +37,8 @@ func main() {
 		cmdReplay(os.Args[2:])
 	case "selftest-determinism":
 		cmdSelfDet(os.Args[2:])
+	case "phase":
+		cmdPhase(os.Args[2:])
 	default:
 		usage()
 	}
@@ -100,7 +102,29 @@ func cmdReplay(args []string) {
 		fmt.Fprintln(os.Stderr, "cannot load trace:", err)
 		os.Exit(2)
 	}
+	if t.SplitCut > 0 {
+		self, _ := os.Executable()
+		d, err := splitCheck(self, t, t.SplitCut)
+		if err != nil {
+			fmt.Fprintln(os.Stderr, "split replay failed:", err)
+			os.Exit(2)
+		}
+		if d == "" {
+			fmt.Printf("REPLAY property=C20 result=no-violation (split execution agrees)\n")
+			os.Exit(0)
+		}
+		fmt.Printf("REPLAY property=C20 result=violation sig=C20.process_restart_divergence\n%s\n", d)
+		fmt.Printf("VIOLATION property=C20 replay=%s\n", args[0])
+		os.Exit(1)
+	}
 	r := ExecTrace(t, len(args) > 1 && args[1] == "-v")
+	if flakyByNature(t.Expect) && firstArmed(t.Config, r.Violations) == nil {
+		// the recorded violation is nondeterminism of the code under test: one execution may happen to agree
+		for i := 0; i < 15 && firstArmed(t.Config, r.Violations) == nil; i++ {
+			t2, _ := LoadTrace(args[0])
+			r = ExecTrace(t2, false)
+		}
+	}
 	for _, l := range r.Log {
 		fmt.Println(l)
 	}
